@@ -196,6 +196,27 @@ EXTRA6 = {
     "C19": "Every kind of request after 1-3 dropped deliveries to the requester.",
 }
 
+EXTRA7 = {
+    "C01": "Lock-step rounds go on until implementation AND reference are quiet (a wrongly dropped publisher no longer hides what the reference still delivers).",
+    "C02": "One of the four types carries the largest id a definition may have (10000).",
+    "C03": "Write-side fault families against a timecode manager; a manager at log level DEBUG; long lines of clients leaving without a word; by-standers' streams stay whole frames.",
+    "C04": "A struct and a message of another file under one name; validation off on an aligned file; field names reserved by another target language.",
+    "C05": "70000 (thorough: 140000) frames on one connection; two receivers lost at the same instant; cross-receiver differences classified (open finding: a notice published from inside a delivery).",
+    "C06": "A table crowded with connections that hold no dynamic id; a dynamic allow-multiple namesake.",
+    "C07": "Observers that listen through ALL only; the leaver found dead in a nested delivery.",
+    "C08": "Two and three subscription changes in a row; subscription contexts over mixed lists.",
+    "C09": "Empty and one-element containers assigned to a struct-array element.",
+    "C10": "A type id looked up before re-registration; underscore field names; long arrays.",
+    "C11": "Definitions that need padding placed in every file of a closure; a re-used Parser keeps its options.",
+    "C12": "Compiler options read before parsing on one Parser.",
+    "C13": "Messages embedding messages; explicit core imports; the manager's own frames as a sender.",
+    "C15": "Explicit null sections; a fifteen-link alias chain.",
+    "C16": "The second compilation on another day; a working directory called core_defs; imported files with options of their own.",
+    "C17": "Data sets reconfigured before the recording; quicklogger files of user-defined types read back in several loads.",
+    "C18": "An unregistered publisher; type id -1 at sub-message boundaries.",
+    "C19": "Requests naming ids at and beyond the edges of the type table.",
+}
+
 ALL = [f"C{i:02d}" for i in range(1, 20)]
 NOT_YET = "check not built yet in this round (planned; see DESIGN.md section 4)"
 
@@ -213,7 +234,7 @@ def main():
             "evidence_file": f"/verif/evidence/{pid}.json",
             "replay_cmd_template": "./vcheck replay {path}",
             "engine": c["engine"],
-            "level_claimed": {"category": c["level"], "text": (c["text"] + " " + EXTRA.get(pid, "") + " " + EXTRA2.get(pid, "") + " " + EXTRA3.get(pid, "") + " " + EXTRA4.get(pid, "") + " " + EXTRA5.get(pid, "") + " " + EXTRA6.get(pid, "")).strip(), "design_ref": c["ref"]},
+            "level_claimed": {"category": c["level"], "text": (c["text"] + " " + EXTRA.get(pid, "") + " " + EXTRA2.get(pid, "") + " " + EXTRA3.get(pid, "") + " " + EXTRA4.get(pid, "") + " " + EXTRA5.get(pid, "") + " " + EXTRA6.get(pid, "") + " " + EXTRA7.get(pid, "")).strip(), "design_ref": c["ref"]},
             "level_note": c["note"],
             "technique": c["technique"],
         })
